@@ -817,6 +817,11 @@ class Interp:
                 new = base.replace(term=T("add", base.term, T("smul", c, T("eye", self.api.dim_term(base.shape[0])))), labels=base.labels | v.labels, has_const=False, const_=None, items=None)
                 self.rebind(base, new, st)
                 return
+        if base.kind == "arr" and base.shape is not None and len(base.shape) == 1 and v.kind == "arr" and v.shape == base.shape and self.api.whole_range(idx, base.shape[0]) and (base.extra in (None, "float") or base.extra == v.extra):
+            # a[np.arange(len(a))] = v: every entry is overwritten
+            new = base.replace(term=v.term, labels=base.labels | v.labels, has_const=False, const_=None, items=None)
+            self.rebind(base, new, st)
+            return
         blk = self._block_store(base, idx, v)
         new = base.replace(term=blk if blk is not None else T("store", base.term, idx.term, v.term), labels=base.labels | v.labels | idx.labels, has_const=False, const_=None, items=None)
         self.rebind(base, new, st)
